@@ -65,6 +65,14 @@ CLAIMED = {
          "All files of <=2 (thorough <=3; simulated <=6) records over adversarial shapes x every buffer size 2..len+1 are model-checked (whole records, orders 0..k-1, concatenation equals the file, termination; the 1-byte-buffer livelock is shown by a negative run). The same files, plus 880 (thorough 2 068) generated ones, are replayed on the real code, with a verdict from the contract and record equality only. For production constants, files are built so the 2^20-th byte falls on every tag class (thorough: every byte) of a record, then read by the library and by obiconvert and accepted by TLC only if the records and order are exact.",
          "Trusted: TLC, the harness line decoder for obiconvert output, io.ReadFull semantics. Bounded: file shapes the generators express; flat-file 128 MiB constant in thorough only. Parser-worker races exercised, not gated. Order is decided on batch numbers (command output order is checked strictly).",
          "DESIGN.md 5 C01"),
+ "C11": ("TLA+ reference definition of in-silico PCR (Pcr.tla on Apat.tla) model-checked by TLC on bounded template families with the relational clauses as invariants; every exported case replayed on PCRSim, PCRSlice batches and the obipcr binary; recorded long-template and --fragmented runs validated by a TLC trace specification",
+         "All templates over {a,t} of length <= 10 and over {a,c,g,t} of length <= 7, planted-site templates <= 16, with 10 primer pairs x 18 option sets (subsampled in thorough): amplicon multiset exact, rc-flip and rotation invariance proven on the model and confirmed on the code (PCRSim alone, PCRSlice batches in several orders with the recycled C buffer, the binary); beyond that, seeded templates to 10^4 bases with planted products, incl. --fragmented.",
+         "Circular templates shorter than a primer or flanks longer than one turn are not asserted; --fragmented is compared as sets and only without -D/-c. Primer sites hanging off a linear template are treated as no match.",
+         "DESIGN.md 5 C11"),
+ "C08": ("TLA+ reference definition of paired-end alignment (PEAlign.tla), checked by TLC on bounded models (dynamic program against exhaustive path enumeration, mirror and fast-mode lemmas); tiny cases are replayed on the real code, and TLC trace-validates seeded random read pairs using the implementation's own integer score tables (hook H2)",
+         "model_checking. Every optimal answer is exported for reads of at most 3 (thorough 4) bases, and the 4-mer-vote lemma is checked for fragments of at most 7 (10) bases. Every recorded pair of up to 300 bases is judged by TLC on path (consumes both reads), score (= score along the path; = DP optimum in exact mode, recomputed up to la*lb <= 2500/6400), consensus, qualities and statistics, on fresh and reused arenas.",
+         "Scores are a parameter and the log-odds tables are not verified. The mismatch-column quality is only range-checked. Reconstruction is demanded only when the optimum is unique or the vote has a strict maximiser. The obipairing binary is exercised by C05.",
+         "DESIGN.md 5 C08"),
 }
 
 NOT_YET = "check not built yet in this round (planned, see DESIGN.md 10); not claimed"
